@@ -255,7 +255,7 @@ func (e *Enc) invoke(cur *cursor, v ssa.Value, c *ssa.CallCommon, args []Val, po
 }
 
 func (e *Enc) declFun(name string, args []string, res string) {
-	if e.declared["fun:"+name] {
+	if e.declared["fun:"+name] || name == "im_Error" {
 		return
 	}
 	e.declared["fun:"+name] = true
@@ -355,6 +355,7 @@ func (e *Enc) appendCall(cur *cursor, v ssa.Value, c *ssa.CallCommon, pos token.
 	for i, x := range elems {
 		a := fmt.Sprintf("(selem %s (+ (sl_len %s) %d))", r, s, i)
 		e.storeAt(st, a, el, x)
+		e.elemStoreOblige(cur, x, el, pos, "appended element")
 	}
 	e.setVal(cur, v, r)
 }
@@ -473,6 +474,9 @@ func (e *Enc) applyContractSig(cur *cursor, v ssa.Value, name string, callee *ss
 		} else {
 			e.havocEffects(cur.st, eff, cur.guard)
 		}
+	}
+	for _, g := range ct.Updates {
+		cur.st.ghost[g] = e.fresh(g, e.ghostSort(g))
 	}
 	results := e.freshResults(cur, sig, "ret_"+sanitize(name))
 	if ct.Pure && (len(ct.Ensures) == 0 || ct.Opts["constant"] != "") && sig.Results().Len() > 0 {
@@ -854,6 +858,11 @@ func (m *Model) verifyFunc(name string, ct *Contract) (*Enc, error) {
 		e.assume("true", e.typeAssume(st, c, fv.Type()))
 	}
 	guard := "true"
+	for _, g := range sortedKeys(ct.Inits) {
+		sc := e.specCtxPost(fc, st, guard, nil)
+		st.ghost[g] = sc.mat(sc.val(ct.Inits[g]))
+	}
+	fc.entrySt = st.clone()
 	for _, rq := range ct.Requires {
 		sc := e.specCtxPost(fc, st, guard, nil)
 		e.assume(guard, e.specBool(sc, rq.Expr))
@@ -893,6 +902,8 @@ func (e *Enc) specCtxPost(fc *fctx, st *State, guard string, results []string) *
 		sv := SV{T: e.asTermQuiet(fc.params[i]), Ty: p.Type()}
 		sc.vars[p.Name()] = sv
 		sc.oldVars[p.Name()] = sv
+		sc.vars[fmt.Sprintf("arg%d", i)] = sv
+		sc.oldVars[fmt.Sprintf("arg%d", i)] = sv
 	}
 	for fv, v := range fc.freevars {
 		if pt, ok := fv.Type().Underlying().(*types.Pointer); ok && v.K == vTerm {
@@ -959,6 +970,9 @@ func (e *Enc) frameObligations(fc *fctx, r retInfo, k int) {
 			continue
 		}
 		if _, ok := fc.mods[g]; ok {
+			continue
+		}
+		if hasStr(ct.Updates, g) {
 			continue
 		}
 		now := e.ghostGet(r.st, g)
